@@ -621,6 +621,7 @@ func comparisonSignature(modes json.RawMessage, res gmodel.Result, ctx assertCtx
 
 type calibStats struct {
 	total, translated, notTranslated, expectedErrorSeen int
+	expectedErrAtTranslate                              int
 	executed, passed, failed, errored                   int
 	unsupported                                         map[string]int
 	failures                                            []string
@@ -696,6 +697,7 @@ func TestCalibration(t *testing.T) {
 		if tr.Err != nil {
 			if expectErr {
 				st.expectedErrorSeen++
+				st.expectedErrAtTranslate++
 				st.passed++
 				continue
 			}
@@ -771,9 +773,9 @@ func TestCalibration(t *testing.T) {
 	fmt.Fprintf(&sb, "\npgsim calibration against the repository's integration corpus\n")
 	fmt.Fprintf(&sb, "  total cases / template variants / metamorphic queries : %d\n", st.total)
 	fmt.Fprintf(&sb, "  translated by DAWGS                                    : %d\n", st.translated)
-	fmt.Fprintf(&sb, "  not translated (translation error)                     : %d (of which expected query_error: %d)\n", st.notTranslated+st.expectedErrorSeen-(st.expectedErrorSeen-countExpectedAtTranslate(st)), countExpectedAtTranslate(st))
-	fmt.Fprintf(&sb, "  executed by pgsim (rows or expected error)             : %d\n", st.executed)
-	fmt.Fprintf(&sb, "  assertion passed                                       : %d\n", st.passed)
+	fmt.Fprintf(&sb, "  rejected by DAWGS (parse / translation error)          : %d (expected by a query_error assertion: %d, unexpected: %d)\n", st.notTranslated+st.expectedErrAtTranslate, st.expectedErrAtTranslate, st.notTranslated)
+	fmt.Fprintf(&sb, "  executed by pgsim (rows, or the expected error)        : %d\n", st.executed)
+	fmt.Fprintf(&sb, "  assertion passed (incl. %d query_error expectations)     : %d\n", st.expectedErrorSeen, st.passed)
 	fmt.Fprintf(&sb, "  assertion FAILED                                       : %d\n", st.failed)
 	fmt.Fprintf(&sb, "  unexpected pgsim error outcome                         : %d\n", st.errored)
 	unsupTotal := 0
@@ -803,9 +805,4 @@ func TestCalibration(t *testing.T) {
 			t.Errorf("%d case(s) Unsupported for an unlisted reason: %s", n, r)
 		}
 	}
-}
-
-func countExpectedAtTranslate(st calibStats) int {
-	// expected errors observed = at translation + at execution; the latter are counted in executed
-	return st.expectedErrorSeen
 }
